@@ -1,0 +1,10 @@
+//go:build verif
+
+package oidc
+
+// Verification hooks for property C12 (claims codec): access to the unexported
+// custom-claims map of JWTTokenRequest. Built only with -tags verif.
+
+func VerifJWTTokenRequestPrivate(j *JWTTokenRequest) map[string]any { return j.private }
+
+func VerifSetJWTTokenRequestPrivate(j *JWTTokenRequest, m map[string]any) { j.private = m }
